@@ -44,8 +44,8 @@ def objv_lit(v):
 class RecTask(search.SpecTask):
     """records (argument, value) of every objective call in-process"""
     def objective_function(self, x):
-        val = search.objective_value(self.data["obj"], x)
-        self.data["log"].append((x, val))
+        val = search.stored_objective(self.data["obj"], x)
+        self.data["log"].append((x, list(val) if isinstance(val, list) else val))
         return val
 
 
@@ -160,7 +160,7 @@ def make_jobs(ctx, focus: str):
             jobs.append({"opt": nm, "cfg": {"max_cycles": r.choice([2, 3]), "fitness_error": None}, "task": t, "record": True, "trace_init": True})
         # multi-objective with non-normalised weights, both directions
         if focus in ("cost", "space") or not ctx.quick:
-            t = {"vars": [("multiobj", ([-4.0, -4.0], [4.0, 4.0]))], "obj": "multi2", "minmax": r.choice(["min", "max"]),
+            t = {"vars": [("multiobj", ([-4.0, -4.0], [4.0, 4.0]))], "obj": r.choice(["multi2", "cached:multi2"]), "minmax": r.choice(["min", "max"]),
                  "weights": r.choice([[2.0, 1.0], [0.25, 0.25], [3.0, 0.5], [0.4, 0.6]]), "seed": r.randint(0, 10**6)}
             jobs.append({"opt": nm, "cfg": {"max_cycles": 2, "fitness_error": None}, "task": t, "record": True})
         # a task object that was used before and whose variables were then narrowed (task.variables = ...): positions and objective arguments must lie in the NEW space
